@@ -3,6 +3,7 @@ From Coq Require Import ZArith Arith List Bool Permutation Sorting.Sorted.
 From B2Z Require Import Base.Prims Model.Spec Model.Icf Pipeline.Rows Pipeline.Buf Pipeline.Pipe Proofs.SpecProofs Proofs.SpecRoundtrip Bridge.BridgeBuffer.
 From B2Z Require Gen.GenBuffer.
 From B2Z Require Import Base.SanPrims Gen.GenSanitise Bridge.BridgeSanitise.
+From B2Z Require Import Base.EncSkel Gen.GenEncoders Bridge.BridgeEncoders.
 Import ListNotations.
 Open Scope nat_scope.
 
@@ -186,6 +187,40 @@ Example translated_sanitiser_instance :
   gen_int_1d 4 [9; 9; 9; 9]%Z (Some [5; -2147483648; -2147483647]%Z) = Ok [5; -1; -2; -2]%Z /\
   gen_float_1d 3 [7; 7; 7]%Z (Some [2139095040; 2143289344]%Z) = Ok [2139095040; 2139095041; 2139095042]%Z /\
   gen_int_1d 2 [] (Some [1; 2; 3]%Z) = Err E_ValueError.
+Proof. vm_compute. repeat split; reflexivity. Qed.
+
+(* ---- TRANSLATOR TIE: the six partition encoders of vcz.py (encode_array / genotypes / alleles / id /
+   filters / contig _partition) as regenerated from the source on this run (translator/enc2coq.py ->
+   Gen/GenEncoders.v).  Every skeleton passes the executable check skel_ok: buffers created at
+   partition.start, values taken from iter_values(partition.start, partition.stop), one next_buffer_row per
+   value and buffer, rows written / read only after they were handed out, one flush per buffer after the
+   loop, arrays initialised = arrays buffered = arrays finalised ... *)
+Theorem translated_encoders_well_formed : forallb skel_ok gen_encoders = true.
+Proof. exact gen_encoders_ok_lemma. Qed.
+Print Assumptions translated_encoders_well_formed.
+
+(* ... hence, for EVERY number n of values in the partition, every chunk size and every partition start o,
+   every buffer of every encoder performs exactly the run gen_encode cs n o of the translated BufferedArray,
+   which translated_buffer_is_the_model shows to be the chunk-buffer model's flushes of rows [o, o + n):
+   record i of the partition lands in row o + i of the array, nothing else is written *)
+Theorem translated_encoders_drive_buffers : forall s, In s gen_encoders -> forall b, (b < nbufs s)%nat -> forall cs n o,
+  let '(_, rws, ev) := run_trace (Z.of_nat cs) (trace s n b) {| GenBuffer.array_offset := o; GenBuffer.buffer_row := 0 |} in
+  (rws, ev) = gen_encode cs n o.
+Proof. exact translated_encoders_drive_buffers_lemma. Qed.
+Print Assumptions translated_encoders_drive_buffers.
+
+Theorem translated_encoders_use_partition_range : forall s, In s gen_encoders ->
+  Forall (fun o => o = OffPartStart) (offs s) /\ length (offs s) = nbufs s /\ srcs s <> [] /\ Forall (fun o => o = SrcPartition) (srcs s).
+Proof. exact translated_encoders_ranges_lemma. Qed.
+Print Assumptions translated_encoders_use_partition_range.
+
+(* sensitivity of the check: a buffer created at 0, a second next_buffer_row, a missing flush, a write before
+   the row is handed out are all refused *)
+Example skel_check_refuses :
+  skel_ok {| nbufs := 1; offs := [OffOther]; arrays := [0]; inits := [0]; srcs := [SrcPartition]; body := [ENext 0; EWrite 0 0]; finals := [0]; finalised := [0] |} = false /\
+  skel_ok {| nbufs := 1; offs := [OffPartStart]; arrays := [0]; inits := [0]; srcs := [SrcPartition]; body := [ENext 0; ENext 0; EWrite 0 0]; finals := [0]; finalised := [0] |} = false /\
+  skel_ok {| nbufs := 1; offs := [OffPartStart]; arrays := [0]; inits := [0]; srcs := [SrcPartition]; body := [ENext 0; EWrite 0 0]; finals := []; finalised := [0] |} = false /\
+  skel_ok {| nbufs := 2; offs := [OffPartStart; OffPartStart]; arrays := [0; 1]; inits := [0; 1]; srcs := [SrcPartition]; body := [ENext 0; EWrite 1 0; ENext 1; EWrite 0 0]; finals := [0; 1]; finalised := [0; 1] |} = false.
 Proof. vm_compute. repeat split; reflexivity. Qed.
 
 Example c01_instance :
